@@ -18,7 +18,7 @@ RULE = ("structure-aware Rust generators (every variant, empty/boundary sizes, n
 TRUSTED_BASE = ["model/Formats.v + base/Bytes.v: hand transcription of sos_core::encoding::v1 and binary-stream 10 "
                 "primitives; tied to the code by byte-exact decode→re-encode agreement on every generated encoding",
                 "tools/extract_facts.py (event-kind tags, cipher ids, MAX_BUFFER_SIZE, flag bits → gen/Generated.v)"]
-ASSUMPTIONS = ["types not in Formats.v (DeviceEvent::Trust JSON payload, vault header, secret kinds, protobuf wire types) "
+ASSUMPTIONS = ["types not in Formats.v (DeviceEvent::Trust JSON payload, vault meta, secret meta and kinds, the protobuf wire types scan/diff/patch request+response and SyncStatus) "
                "are explored through the implementation-only round-trip oracle and listed as not modelled",
                "prost varint coding is trusted"]
 COQ_EXTRA_TARGETS = ()
